@@ -68,8 +68,9 @@ for name, edits in EDITS.items():
     env = dict(os.environ, VERIF_REPO=dst, VERIF_EVIDENCE_DIR='/scratch/seed_evidence')
     ids = [c['property_id'] for c in json.load(open('/verif/MANIFEST.json'))['checks']]
     bad = []
-    for i in ids:
-        c = subprocess.run(['/verif/check', i], capture_output=True, text=True, env=env)
+    for n_, i in enumerate(ids):
+        # the dependency layer is the same in every check: run it with the first check only
+        c = subprocess.run(['/verif/check', i], capture_output=True, text=True, env=env if n_ == 0 else dict(env, VERIF_NO_DEPENDENCY_LAYER='1'))
         if c.returncode != 0:
             lines = [l for l in c.stdout.splitlines() if l.startswith(('VIOLATION', 'UNDECIDED', 'CHECKER'))]
             bad.append((i, c.returncode, lines[0][:200] if lines else c.stdout[-200:]))
